@@ -886,7 +886,8 @@ class Evaluator(object):
             if isinstance(a, Obj):
                 return K(("class:%s.%s" % (fi.module, a.cls)) in ts or a.cls in ts)
             raise AnalysisError("isinstance on untyped symbol %r" % (a,))
-        if fname.startswith("uuid."):
+        if fname in ("uuid.uuid4", "uuid.uuid1") and not args and not kwargs:
+            # (only the generators themselves: uuid.UUID(int=<something>) is as unique as its argument)
             self.fresh += 1
             return Sym("fresh:%s#%d" % (fname, self.fresh), truthy=True, pytype=str)
         if isinstance(f, ast.Attribute):
